@@ -84,6 +84,39 @@ func write(ps *prover.ProvingSystem, raw bool) []byte {
 	return buf.Bytes()
 }
 
+// quotaWriter accepts the first `left` bytes and then fails like a full volume.
+type quotaWriter struct{ left int }
+
+func (q *quotaWriter) Write(p []byte) (int, error) {
+	if len(p) <= q.left {
+		q.left -= len(p)
+		return len(p), nil
+	}
+	n := q.left
+	q.left = 0
+	return n, fmt.Errorf("no space left on device")
+}
+
+// writeFault: does writing into a volume that takes only `quota` bytes report an error?
+func writeFault(ps *prover.ProvingSystem, raw bool, quota int) (res string) {
+	defer func() {
+		if x := recover(); x != nil {
+			res = fmt.Sprintf("panic: %v", x)
+		}
+	}()
+	var err error
+	w := &quotaWriter{left: quota}
+	if raw {
+		_, err = ps.WriteRawTo(w)
+	} else {
+		_, err = ps.WriteTo(w)
+	}
+	if err == nil {
+		return fmt.Sprintf("write reported success although only %d bytes were stored", quota)
+	}
+	return "ok"
+}
+
 func stageOf(read int64, s sections) string {
 	switch {
 	case read < 4:
@@ -274,6 +307,15 @@ func exercise(label string, ps *prover.ProvingSystem, g *gen.G, allCuts bool, nC
 			emit("layout\t"+tag, fmt.Sprintf("file (%d bytes) is not header++pk++vk++cs (%d bytes)", len(file), len(want)))
 		}
 		emit(fmt.Sprintf("header\t%d\t%d", ps.TreeDepth, ps.BatchSize), hex.EncodeToString(file[:8]))
+		// a write that cannot complete (volume full, pipe closed) must be reported, wherever it stops:
+		// a caller that is told "written" goes on to serve from, or ship, a truncated file
+		for _, q := range []struct {
+			where string
+			quota int
+		}{{"header", 3}, {"proving-key", 8 + len(s.pk)/2}, {"verifying-key", 8 + len(s.pk) + len(s.vk)/2},
+			{"constraint-system-start", 8 + len(s.pk) + len(s.vk)}, {"constraint-system", len(file) - len(s.cs)/2}, {"last-byte", len(file) - 1}} {
+			emit(fmt.Sprintf("writefault\t%s\t%s", tag, q.where), writeFault(ps, raw, q.quota))
+		}
 		// reload
 		r, back := readPrefix(file, len(file), s)
 		if r != "ok" {
